@@ -94,6 +94,9 @@ func (vc *VC) localEnv(b *ssa.BasicBlock, parent *Env) *Env {
 				if v, ok := s.cells[a]; ok {
 					return v
 				}
+				if pv, ok := vc.params[a.Comment]; ok {
+					return pv // entry value (old state)
+				}
 				panic(unsupported("local %s not initialised at this point", a.Comment))
 			}
 			p, ok := vc.regs[a]
